@@ -471,6 +471,10 @@ func (c *Ctx) applyContract(st *State, fr *Frame, ins ssa.Instruction, ct *Contr
 	// results
 	vals := c.freshResults(st, sig, "r")
 	env.results = vals
+	env.resTypes = nil
+	for i := 0; i < sig.Results().Len(); i++ {
+		env.resTypes = append(env.resTypes, sig.Results().At(i).Type())
+	}
 	env.post = true
 	env.st = st
 	for _, e := range ct.Ensures {
